@@ -20,7 +20,7 @@ import (
 // histories from the same initial disk, plus permuted directory traversal.
 
 type C08Params struct {
-	Cmd     string       `json:"cmd"` // update | compare | compare-gh | format | format-check
+	Cmd     string       `json:"cmd"`    // update | compare | compare-gh | format | format-check
 	Orders  [][]int      `json:"orders"` // permutations of the addressable files (indices into walk order)
 	DirPlan []simrt.Plan `json:"dir_plans"`
 	Plans   []simrt.Plan `json:"plans"`
